@@ -1,331 +1,2 @@
-(* C15 - every regenerated opcode body (coq/gen/C15Ops.v, translated from
-   core/vm/instructions.go on each check) computes its specified function.
-   One symbolic execution per body; what is left is arithmetic. *)
-From Coq Require Import Lia ZifyBool ZifyN ZifyNat.
-From VF.C15 Require Import Model ProofsArith ProofsHeap ProofsTac.
-From VF.gen Require Import C15Ops.
-Local Open Scope Z_scope.
-
-(* the package level variables the translator found, by name *)
-Lemma globals_spec :
-  globals = [tt256m1; 9223372036854775807; tt255; tt256; tt256m1; tt63; 0; tt255].
-Proof. Transparent tt256m1 tt255 tt256 tt63. reflexivity. Qed.
-Global Opaque tt256m1 tt255 tt256 tt63.
-Lemma globals_len : N.of_nat (length globals) = 8%N. Proof. reflexivity. Qed.
-
-Ltac use_globals Hg :=
-  let Hg' := fresh "Hg'" in
-  pose proof Hg as Hg'; rewrite globals_spec in Hg';
-  pose proof (Hg' 2%nat _ eq_refl); pose proof (Hg' 3%nat _ eq_refl);
-  pose proof (Hg' 4%nat _ eq_refl); pose proof (Hg' 6%nat _ eq_refl);
-  pose proof (Hg' 7%nat _ eq_refl); clear Hg';
-  cbn [N.of_nat Pos.of_succ_nat Pos.succ] in *;
-  pose proof globals_len as Hlen.
-
-Ltac open_wf Hwf :=
-  let Hnd := fresh "Hnd" in let Hal := fresh "Hal" in let Hr := fresh "Hr" in
-  destruct Hwf as [Hnd Hal Hr Hg Hn Hm]; cbn [stack pool heap next mem] in *;
-  cbn [app] in *; nd_hyps; use_globals Hg.
-
-Ltac start1 :=
-  intros code pc [h nx st pl m] st' Hwf Happ;
-  unfold svals in Happ; cbn [stack heap] in Happ;
-  destruct st as [|la ls]; cbn in Happ; try discriminate; injection Happ as <-;
-  open_wf Hwf; unfold run_body.
-Ltac start2 :=
-  intros code pc [h nx st pl m] st' Hwf Happ;
-  unfold svals in Happ; cbn [stack heap] in Happ;
-  destruct st as [|la [|lb ls]]; cbn in Happ; try discriminate; injection Happ as <-;
-  open_wf Hwf; unfold run_body.
-Ltac start3 :=
-  intros code pc [h nx st pl m] st' Hwf Happ;
-  unfold svals in Happ; cbn [stack heap] in Happ;
-  destruct st as [|la [|lb [|lc ls]]]; cbn in Happ; try discriminate; injection Happ as <-;
-  open_wf Hwf; unfold run_body.
-
-Ltac simp_glob :=
-  simp_heap;
-  repeat match goal with
-  | H : ?f ?k = _ |- context [?f ?k] =>
-      lazymatch k with N.pos _ => rewrite H | N0 => rewrite H end
-  end.
-Ltac run_sym :=
-  repeat (repeat symex1; simp_glob; try split_stuck).
-
-Lemma land_mask_wrap x : Z.land x tt256m1 = wrap256 x. Proof. reflexivity. Qed.
-
-(* ---- ADD SUB MUL ------------------------------------------------------------------ *)
-Lemma opAdd_ok : comp_correct globals body_opAdd (F2 spec_add).
-Proof.
-  start2. unfold body_opAdd. run_sym. finish; rewrite land_mask_wrap.
-  - apply wrap256_range.
-  - reflexivity.
-Qed.
-Lemma opSub_ok : comp_correct globals body_opSub (F2 spec_sub).
-Proof.
-  start2. unfold body_opSub. run_sym. finish; rewrite land_mask_wrap.
-  - apply wrap256_range.
-  - reflexivity.
-Qed.
-Lemma opMul_ok : comp_correct globals body_opMul (F2 spec_mul).
-Proof.
-  start2. unfold body_opMul. run_sym. finish; rewrite land_mask_wrap.
-  - apply wrap256_range.
-  - reflexivity.
-Qed.
-(* rewriting the residue into the vocabulary of the specification *)
-Ltac u64_bounds :=
-  repeat match goal with
-  | |- context [wrap_u64 ?x] =>
-      lazymatch goal with
-      | _ : 0 <= wrap_u64 x < tt64 |- _ => fail
-      | _ => pose proof (wrap_u64_bound x)
-      end
-  | _ : context [wrap_u64 ?x] |- _ =>
-      lazymatch goal with
-      | _ : 0 <= wrap_u64 x < tt64 |- _ => fail
-      | _ => pose proof (wrap_u64_bound x)
-      end
-  end.
-Ltac norm :=
-  rewrite ?land_mask_wrap, ?wrap_u64_0, ?wrap_u64_1 in *;
-  rewrite ?cmp_lt, ?cmp_gt, ?cmp_eq, ?cmp_ge in *;
-  rewrite ?Z.geb_leb, ?Z.gtb_ltb in *;
-  rewrite ?wrap256_id in * by assumption.
-Ltac bool_hyps :=
-  repeat match goal with
-  | H : negb _ = true |- _ => apply Bool.negb_true_iff in H
-  | H : negb _ = false |- _ => apply Bool.negb_false_iff in H
-  | H : (_ && _)%bool = true |- _ => apply Bool.andb_true_iff in H; destruct H
-  | H : (_ || _)%bool = false |- _ => apply Bool.orb_false_iff in H; destruct H
-  end.
-
-Lemma opDiv_ok : comp_correct globals body_opDiv (F2 spec_div).
-Proof.
-  start2. unfold body_opDiv. run_sym. all: finish; norm; unfold spec_div.
-  - apply wrap256_range.
-  - assert (0 < h lb) by (unfold inrange in *; lia).
-    rewrite ediv_pos by lia. replace (h lb =? 0) with false by lia.
-    apply wrap256_id, div_range; assumption.
-  - apply inrange_0.
-  - replace (h lb =? 0) with true by lia. reflexivity.
-Qed.
-
-Lemma opMod_ok : comp_correct globals body_opMod (F2 spec_mod).
-Proof.
-  start2. unfold body_opMod. run_sym. all: finish; norm; unfold spec_mod.
-  - apply inrange_0.
-  - replace (h lb =? 0) with true by lia. reflexivity.
-  - apply wrap256_range.
-  - assert (0 < h lb < tt256) by (unfold inrange in *; lia).
-    replace (h lb =? 0) with false by lia. rewrite Z.abs_eq by lia.
-    apply wrap256_id, mod_range; lia.
-Qed.
-
-Lemma opNot_ok : comp_correct globals body_opNot (F1 spec_not).
-Proof.
-  start1. unfold body_opNot. run_sym. all: finish; norm.
-  - apply wrap256_range.
-  - apply not_wrap. assumption.
-Qed.
-
-Lemma opLt_ok : comp_correct globals body_opLt (F2 spec_lt).
-Proof.
-  start2. unfold body_opLt. run_sym. all: finish; norm; unfold spec_lt.
-  - apply inrange_1.
-  - rewrite Heqb. reflexivity.
-  - apply inrange_0.
-  - rewrite Heqb. reflexivity.
-Qed.
-Lemma opGt_ok : comp_correct globals body_opGt (F2 spec_gt).
-Proof.
-  start2. unfold body_opGt. run_sym. all: finish; norm; unfold spec_gt; rewrite ?Z.gtb_ltb.
-  - apply inrange_1.
-  - rewrite Heqb. reflexivity.
-  - apply inrange_0.
-  - rewrite Heqb. reflexivity.
-Qed.
-Lemma opEq_ok : comp_correct globals body_opEq (F2 spec_eq).
-Proof.
-  start2. unfold body_opEq. run_sym. all: finish; norm; unfold spec_eq.
-  - apply inrange_1.
-  - rewrite Heqb. reflexivity.
-  - apply inrange_0.
-  - rewrite Heqb. reflexivity.
-Qed.
-Lemma opIszero_ok : comp_correct globals body_opIszero (F1 spec_iszero).
-Proof.
-  start1. unfold body_opIszero. run_sym. all: finish; norm; unfold spec_iszero.
-  - apply inrange_0.
-  - replace (h la =? 0) with false by lia. reflexivity.
-  - apply inrange_1.
-  - replace (h la =? 0) with true by (unfold inrange in *; lia). reflexivity.
-Qed.
-Lemma opAnd_ok : comp_correct globals body_opAnd (F2 spec_and).
-Proof.
-  start2. unfold body_opAnd. run_sym. all: finish.
-  - apply land_range; assumption.
-  - reflexivity.
-Qed.
-Lemma opOr_ok : comp_correct globals body_opOr (F2 spec_or).
-Proof.
-  start2. unfold body_opOr. run_sym. all: finish.
-  - apply lor_range; assumption.
-  - reflexivity.
-Qed.
-Lemma opXor_ok : comp_correct globals body_opXor (F2 spec_xor).
-Proof.
-  start2. unfold body_opXor. run_sym. all: finish.
-  - apply lxor_range; assumption.
-  - reflexivity.
-Qed.
-
-Lemma opAddmod_ok : comp_correct globals body_opAddmod (F3 spec_addmod).
-Proof.
-  start3. unfold body_opAddmod. run_sym. all: norm; finish; norm; unfold spec_addmod.
-  - apply wrap256_range.
-  - assert (0 < h lc < tt256) by (unfold inrange in *; lia).
-    replace (h lc =? 0) with false by lia. rewrite Z.abs_eq by lia.
-    apply wrap256_id, mod_range; lia.
-  - apply inrange_0.
-  - replace (h lc =? 0) with true by (unfold inrange in *; lia). reflexivity.
-Qed.
-Lemma opMulmod_ok : comp_correct globals body_opMulmod (F3 spec_mulmod).
-Proof.
-  start3. unfold body_opMulmod. run_sym. all: norm; finish; norm; unfold spec_mulmod.
-  - apply wrap256_range.
-  - assert (0 < h lc < tt256) by (unfold inrange in *; lia).
-    replace (h lc =? 0) with false by lia. rewrite Z.abs_eq by lia.
-    apply wrap256_id, mod_range; lia.
-  - apply inrange_0.
-  - replace (h lc =? 0) with true by (unfold inrange in *; lia). reflexivity.
-Qed.
-
-Lemma opByte_ok : comp_correct globals body_opByte (F2 spec_byte).
-Proof.
-  start2. unfold body_opByte. run_sym. all: norm; finish; norm; unfold spec_byte.
-  1,2: assert (Hs : 0 <= h la < 32) by (unfold inrange in *; lia);
-       pose proof tt63_big as H63; pose proof tt64_big as H64;
-       rewrite int64_of_small, wrap_i64_small by lia;
-       rewrite byte_of_spec by (unfold inrange in *; lia);
-       pose proof (land_255_range (Z.shiftr (h lb) (8 * (31 - h la)))) as Hb;
-       rewrite !(wrap_u64_small (Z.land _ _)) by lia.
-  - apply small_inrange. lia.
-  - replace (h la <? 32) with true by lia. reflexivity.
-  - apply inrange_0.
-  - replace (h la <? 32) with false by lia. reflexivity.
-Qed.
-
-(* shift := U256(pop) with shift < 256: uint(shift.Uint64()) is the shift itself *)
-Lemma shift_count a : inrange a -> a < 256 -> wrap_u64 (uint64_of a) = a.
-Proof.
-  unfold inrange. intros Ha Hlt. pose proof tt64_big.
-  rewrite uint64_of_small by lia. apply wrap_u64_small. lia.
-Qed.
-
-Lemma opSHL_ok : comp_correct globals body_opSHL (F2 spec_shl).
-Proof.
-  start2. unfold body_opSHL. run_sym. all: norm; u64_bounds; finish; norm; unfold spec_shl.
-  - apply inrange_0.
-  - replace (h la <? 256) with false by lia. reflexivity.
-  - apply wrap256_range.
-  - replace (h la <? 256) with true by lia. rewrite shift_count by (assumption || lia). reflexivity.
-Qed.
-Lemma opSHR_ok : comp_correct globals body_opSHR (F2 spec_shr).
-Proof.
-  start2. unfold body_opSHR. run_sym. all: norm; u64_bounds; finish; norm; unfold spec_shr.
-  - apply inrange_0.
-  - replace (h la <? 256) with false by lia. reflexivity.
-  - apply wrap256_range.
-  - replace (h la <? 256) with true by lia. rewrite shift_count by (assumption || lia).
-    apply wrap256_id, shiftr_range; [assumption|unfold inrange in *; lia].
-Qed.
-
-Ltac signed_cmp :=
-  unfold sgn256, b2w; rewrite M255_tt, M256_tt; rewrite ?Z.geb_leb, ?Z.gtb_ltb in *;
-  pose proof tt256_double; pose proof tt255_pos; unfold inrange in *;
-  repeat match goal with
-  | |- context [if ?b then _ else _] =>
-      lazymatch b with
-      | context [if _ then _ else _] => fail
-      | _ => destruct b eqn:?
-      end
-  end; lia.
-
-Lemma opSlt_ok : comp_correct globals body_opSlt (F2 spec_slt).
-Proof.
-  start2. unfold body_opSlt. run_sym. all: norm; finish; norm; unfold spec_slt.
-  all: try apply inrange_0; try apply inrange_1.
-  all: signed_cmp.
-Qed.
-Lemma opSgt_ok : comp_correct globals body_opSgt (F2 spec_sgt).
-Proof.
-  start2. unfold body_opSgt. run_sym. all: norm; finish; norm; unfold spec_sgt.
-  all: try apply inrange_0; try apply inrange_1.
-  all: signed_cmp.
-Qed.
-
-Ltac sgn_cases :=
-  repeat match goal with
-  | H : (?x <? tt255) = true |- context [sgn256 ?x] => rewrite (sgn256_lt_eq x H)
-  | H : (?x <? tt255) = false |- context [sgn256 ?x] => rewrite (sgn256_ge_eq x H)
-  end.
-
-Lemma opSAR_ok : comp_correct globals body_opSAR (F2 spec_sar).
-Proof.
-  start2. unfold body_opSAR. run_sym. all: norm; u64_bounds; finish; norm; unfold spec_sar.
-  all: try apply wrap256_range.
-  all: sgn_cases; pose proof tt256_double; pose proof tt255_pos; unfold inrange in *.
-  all: try (replace (h la <? 256) with false by lia).
-  all: try (replace (h la <? 256) with true by lia; rewrite shift_count by (unfold inrange; lia); reflexivity).
-  all: rewrite ?wrap_i64_m1, ?wrap256_m1, ?wrap256_0.
-  all: match goal with |- _ = (if ?b then _ else _) => destruct b eqn:? end; lia.
-Qed.
-
-Lemma opSignExtend_ok : comp_correct globals body_opSignExtend (F2 spec_signextend).
-Proof.
-  start2. unfold body_opSignExtend. run_sym. all: norm.
-  all: try (assert (Ha : 0 <= h la < 31) by (unfold inrange in *; lia);
-            rewrite !(bit_count _ Ha) in *;
-            assert (Hw : wrap_i64 (8 * h la + 7) = 8 * h la + 7)
-              by (apply wrap_i64_small; pose proof tt63_big; lia);
-            rewrite ?Hw in *).
-  all: finish; norm; unfold spec_signextend.
-  all: try apply wrap256_range.
-  - (* sign bit set *)
-    replace (h la <? 31) with true by lia. cbv zeta.
-    assert (Hb : Z.testbit (h lb) (8 * h la + 7) = true) by (destruct (Z.testbit _ _); [reflexivity|discriminate]).
-    rewrite Hb, M256_tt. apply signext_set; [lia|unfold inrange in *; lia|exact Hb].
-  - (* sign bit clear *)
-    replace (h la <? 31) with true by lia. cbv zeta.
-    assert (Hb : Z.testbit (h lb) (8 * h la + 7) = false) by (destruct (Z.testbit _ _); [discriminate|reflexivity]).
-    rewrite Hb, signext_clear by (lia || exact Hb).
-    apply wrap256_id, land_range; [assumption|].
-    unfold inrange. rewrite tt256_eq, Z.ones_equiv.
-    assert (2 ^ (8 * h la + 7 + 1) <= 2 ^ 256) by (apply Z.pow_le_mono_r; lia).
-    assert (0 < 2 ^ (8 * h la + 7 + 1)) by (apply Z.pow_pos_nonneg; lia). lia.
-  - assumption.
-  - replace (h la <? 31) with false by lia. reflexivity.
-Qed.
-
-Lemma opSdiv_ok : comp_correct globals body_opSdiv (F2 spec_sdiv).
-Proof.
-  start2. unfold body_opSdiv. run_sym. all: norm; finish; norm; unfold spec_sdiv.
-  all: try apply wrap256_range; try apply inrange_0.
-  all: sgn_cases; pose proof tt256_double; pose proof tt255_pos; unfold inrange in *.
-  all: match goal with |- _ = (if ?b then _ else _) => destruct b eqn:? end.
-  all: first [ reflexivity | apply sdiv_zero; lia | apply sdiv_neg'; lia | apply sdiv_pos'; lia | exfalso; lia ].
-Qed.
-
-Lemma opSmod_ok : comp_correct globals body_opSmod (F2 spec_smod).
-Proof.
-  start2. unfold body_opSmod. run_sym. all: norm; finish; norm; unfold spec_smod.
-  all: try apply wrap256_range; try apply inrange_0.
-  all: sgn_cases; pose proof tt256_double; pose proof tt255_pos; unfold inrange in *.
-  all: match goal with |- _ = (if ?b then _ else _) => destruct b eqn:? end.
-  all: first [ reflexivity | apply smod_neg'; lia | apply smod_pos'; lia | exfalso; lia ].
-Qed.
-
-Lemma opExp_ok : comp_correct globals body_opExp (F2 spec_exp).
-Proof.
-  start2. unfold body_opExp. run_sym. Show.
+(* C15 - all per-opcode correctness lemmas (see ProofsOps1..5). *)
+From VF.C15 Require Export ProofsOpsCommon ProofsOps1 ProofsOps2 ProofsOps3 ProofsOps4 ProofsOps5.
